@@ -37,6 +37,13 @@
    in binary mode and in text mode with utf-8 (2/3/4-byte characters),
    utf-16 / utf-32 with and without BOM, judged by an independent byte-level
    reference.
+7. specs/SftpIO/Limits.tla adds the server's limits as a dimension
+   (limits@openssh.com absent / present with max read and write lengths
+   below, at and above the client's block size) against a scripted server
+   that ENFORCES them (capped, non-EOF short reads; over-long writes
+   refused), for read / read-to-end / write / get / put / copy with explicit
+   and default block sizes: ReadComplete, ShortReadContinued, AllOrError;
+   "a single READ whenever size <= block size" must be rejected.
 2. Behaviours sampled by TLC (-simulate) are replayed into the REAL client
    (SFTPClientFile.read/write, SFTPClient.get/put/copy) against a scripted
    SFTP server that holds every READ/WRITE and answers in the behaviour's
@@ -394,6 +401,74 @@ def fileobj_replay(ctx, simdir, rnd):
                 f'file object sample too thin: {stats}')
 
 
+def limits_tlc(name, invs, **kw):
+    """One TLC run of specs/SftpIO/Limits.tla"""
+    d = dict(Emit='FALSE', SingleReadAboveLimit='FALSE')
+    d.update(kw)
+    cfg = f'_c12_lim_{name}.cfg'
+    lines = ['CONSTANTS'] + [f'  {k} = {v}' for k, v in d.items()]
+    lines += ['SPECIFICATION Spec', 'CHECK_DEADLOCK FALSE']
+    lines += [f'INVARIANT {i}' for i in invs]
+    with open(os.path.join(SPEC, cfg), 'w') as f:
+        f.write('\n'.join(lines) + '\n')
+    try:
+        return tlc.run(SPEC, 'Limits', cfg, f'c12_lim_{name}', workers=1,
+                       timeout=900, java_heap='2g')
+    finally:
+        tlc.cleanup(f'c12_lim_{name}')
+        os.remove(os.path.join(SPEC, cfg))
+
+
+def limits_replay(ctx, res_table, rnd, quick):
+    """Part 7: the server's limits as a dimension (Limits.tla): a scripted
+    server that advertises and ENFORCES max read / write lengths, the real
+    client with explicit and default block sizes."""
+    from harness.drivers import sftp_proto, sftp_io
+    rows = [r for r in sftp_proto.printed_multiline(res_table.output)
+            if r and r[0] == 'LIMITS']
+    ctx.require(len(rows) > 1000, f'limits table has {len(rows)} rows')
+    if quick:
+        # every row where the block size exceeds an advertised limit, a
+        # seeded quarter of the rest
+        rows = [r for i, r in enumerate(rows)
+                if (r[2] > 0 and r[3] > r[2]) or (i + ctx.seed) % 4 == 0]
+    hits = {}
+    stats = {'capped': 0, 'refused': 0}
+    for row in rows:
+        _t, op, lim, B, size, short, outcome, _direct = row
+        version = rnd.choice([3, 6])
+        mr = rnd.choice([1, 3])
+        r = sftp_io.limits_case(op, lim, B, size, short, version=version,
+                                max_requests=mr)
+        stats['capped'] += bool(r.get('capped'))
+        stats['refused'] += bool(r.get('refused'))
+        ctx.count(('limits', op, lim, B, size, short),
+                  nontrivial=lim > 0 and B != -1)
+        rp = {'kind': 'limits', 'op': op, 'lim': lim, 'B': B, 'size': size,
+              'short': short, 'version': version, 'max_requests': mr}
+        for clause in sorted({c for c, _ in r['l1']}):
+            hits[clause] = hits.get(clause, 0) + 1
+            if hits[clause] > 5:
+                continue
+            text = '; '.join(t for c, t in r['l1'] if c == clause)
+            ctx.violation({'module': 'Limits', 'clause': clause, 'op': op,
+                           'lim': lim, 'B': B, 'size': size, 'short': short},
+                          f'{clause}: {text} [op={op} limit={lim} block={B} '
+                          f'size={size} units of 4096, short file={short}, '
+                          f'v{version}]', replay=rp)
+        if not r['l1'] and r['outcome'] != tuple(outcome):
+            ctx.divergence(f'Limits: op={op} limit={lim} block={B} '
+                           f'size={size} short={short}: code '
+                           f'{r["outcome"]} {r.get("exc")}, table '
+                           f'{tuple(outcome)}')
+    sftp_io.drop_world()
+    ctx.traces_validated(len(rows))
+    ctx.notes.append(f'server-limits rows replayed: {len(rows)} {stats}' +
+                     (f' monitor hits {hits}' if hits else ''))
+    ctx.require(stats['capped'] > 40 and stats['refused'] > 10,
+                f'limits sample too thin: {stats}')
+
+
 TRACE_CONSTS = dict(MaxN=1, Blocks='{1}', MaxReqs='{1}', Ops='{}',
                     SparseSet='{}', MaxAns=1, AllowErr='TRUE',
                     ByOffset='TRUE', Continue='TRUE', ExtendDst='TRUE')
@@ -567,6 +642,19 @@ def main(ctx):
     if ctx.replay_path:
         with open(ctx.replay_path) as f:
             rp = json.load(f)['replay']
+        if rp.get('kind') == 'limits':
+            r = sftp_io.limits_case(rp['op'], rp['lim'], rp['B'], rp['size'],
+                                    rp['short'], version=rp['version'],
+                                    max_requests=rp['max_requests'])
+            sftp_io.drop_world()
+            print('limits case:', r['outcome'], r['l1'])
+            ctx.count(('replay', ctx.replay_path))
+            for clause, text in r['l1']:
+                ctx.violation({'module': 'Limits', 'clause': clause,
+                               'op': rp['op'], 'lim': rp['lim'],
+                               'B': rp['B'], 'size': rp['size'],
+                               'short': rp['short']}, text, replay=rp)
+            return
         if rp.get('kind') == 'fileobj':
             from harness.drivers import sftp_tree, sftp_fileobj
             import random as _r
@@ -773,6 +861,14 @@ def main(ctx):
                                       f'{150 if quick else 2500}',
                              depth=6, seed=ctx.seed * 10 + 9),
         }
+        # the server's limits (specs/SftpIO/Limits.tla)
+        lim_invs = ['ReadComplete', 'ShortReadContinued', 'AllOrError']
+        f_lim = {
+            'table': ex.submit(limits_tlc, 'table', lim_invs + ['Table'],
+                               Emit='TRUE'),
+            'single': ex.submit(limits_tlc, 'single', ['ReadComplete'],
+                                SingleReadAboveLimit='TRUE'),
+        }
         # the sparse-ranges protocol (specs/SftpIO/Sparse.tla)
         alts = [129] if quick else [127, 128, 129, 257]
         f_sparse = {
@@ -794,6 +890,7 @@ def main(ctx):
         tree_res = {k: f.result() for k, f in f_tree.items()}
         sparse_res = {k: f.result() for k, f in f_sparse.items()}
         fo_res = {k: f.result() for k, f in f_fo.items()}
+        lim_res = {k: f.result() for k, f in f_lim.items()}
     for (name, exp, kw), res in zip(runs, results):
         ctx.require_tlc_ok(f'SftpIO {name} {kw}', res, expect_violation=exp)
 
@@ -898,6 +995,13 @@ def main(ctx):
     ctx.add_tlc('FileObj simulate', fo_res['sim'])
     fileobj_replay(ctx, fo_dir, rnd)
     tlc.cleanup('c12_fo_sim_out')
+
+    # ---- 7. the server's limits, enforced -----------------------------------
+    ctx.require_tlc_ok('Limits table', lim_res['table'])
+    ctx.require_tlc_ok('Limits where only the block size decides for a single '
+                       'READ (must violate ReadComplete)', lim_res['single'],
+                       expect_violation='ReadComplete')
+    limits_replay(ctx, lim_res['table'], rnd, quick)
 
     ctx.assumptions += [
         'recorded transfers: linearization points are taken in the client by '
